@@ -208,7 +208,7 @@ def parse_failing(out):
     return [int(x.replace('%nat', '').strip()) for x in body.split(';')]
 
 
-def eval_shard(workdir, name, header, case_type, check_fn, coq_cases, explain_fn=None, timeout=900):
+def eval_shard(workdir, name, header, case_type, check_fn, coq_cases, explain_fn=None, timeout=900, corr_fn=None):
     """Write one cases file and evaluate `failing check cases` inside Coq.  Returns (failing indices | None, output)."""
     path = Path(workdir) / f'{name}.v'
     with open(path, 'w') as f:
@@ -218,6 +218,8 @@ def eval_shard(workdir, name, header, case_type, check_fn, coq_cases, explain_fn
         f.write(';\n'.join(coq_cases))
         f.write('\n].\n')
         f.write(f'Eval vm_compute in (failing ({check_fn}) cases).\n')
+        if corr_fn:
+            f.write(f'Eval vm_compute in (failing ({corr_fn}) cases).\n')
         if explain_fn:
             f.write(f'Eval vm_compute in (map ({explain_fn}) cases).\n')
     rc, out = coqc_file(path, timeout=timeout, cwd=workdir)
@@ -230,25 +232,44 @@ def eval_shard(workdir, name, header, case_type, check_fn, coq_cases, explain_fn
         aux.unlink()
     if rc != 0:
         return None, out
+    if corr_fn:
+        both = parse_failing_all(out)
+        if len(both) < 2:
+            return None, out
+        return (both[0], both[1]), out
     return parse_failing(out), out
 
 
-def eval_cases(workdir, tag, header, case_type, check_fn, coq_cases, shard=300, timeout=900):
+def parse_failing_all(out):
+    res = []
+    for m in LIST_RE.finditer(out):
+        body = m.group(1).strip()
+        res.append([int(x.replace('%nat', '').strip()) for x in body.split(';')] if body else [])
+    return res
+
+
+def eval_cases(workdir, tag, header, case_type, check_fn, coq_cases, shard=300, timeout=900, corr_fn=None):
     """Shard the cases over parallel coqc runs; returns (sorted failing global indices, errors list)."""
     shards = [(i, coq_cases[i:i + shard]) for i in range(0, len(coq_cases), shard)]
     failing, errors = [], []
 
     def work(arg):
         k, (base, cs) = arg
-        idx, out = eval_shard(workdir, f'cases_{tag}_{k}', header, case_type, check_fn, cs, timeout=timeout)
+        idx, out = eval_shard(workdir, f'cases_{tag}_{k}', header, case_type, check_fn, cs, timeout=timeout, corr_fn=corr_fn)
         return base, idx, out
 
+    corr_failing = []
     with ThreadPoolExecutor(max_workers=NPROC) as ex:
         for base, idx, out in ex.map(work, enumerate(shards)):
             if idx is None:
                 errors.append(out[-3000:])
+            elif corr_fn:
+                failing.extend(base + i for i in idx[0])
+                corr_failing.extend(base + i for i in idx[1])
             else:
                 failing.extend(base + i for i in idx)
+    if corr_fn:
+        return (sorted(failing), sorted(corr_failing)), errors
     return sorted(failing), errors
 
 
